@@ -365,6 +365,17 @@ func runC11(t *core.Tape, st *core.Stats) *core.Violation {
 		return v
 	}
 
+	// the URL that went through four marshals prints like a freshly parsed one
+	var usedText, freshText string
+
+	if p := core.Call(func() { usedText, freshText = b0.url.String(), b2.url.String() }); p != nil {
+		return viol(P, "no-panic", p.Func, "url-string:"+p.Class, "URL.String panicked: %s", p.Value)
+	}
+
+	if usedText != freshText {
+		return viol(P, "inputs-unchanged", "URL.String", ds.Kind, "after marshaling, the URL prints as %q; a freshly parsed one as %q", usedText, freshText)
+	}
+
 	out, v := marshal(b2, core.NewMapOrder(core.MOSorted, 1, 0), "rebuilt under reverse map order")
 	if v != nil {
 		return v
